@@ -151,9 +151,24 @@ class HelperRecord:
 def vector_form(repo, fn):
     """Record of the vector calling form (the part of the helper after the `if isinstance(x, str)` block)."""
     rec = {"handle_na": None, "k": None, "d": None, "stat": None, "len_after_na": True, "why": []}
-    top = [s for s in fn.node.body if not (isinstance(s, ast.If) and "isinstance(x, str)" in norm(s.test))
-           and not (isinstance(s, ast.Expr) and isinstance(s.value, ast.Constant))]
     x = fn.params[0]
+    top = []
+    for s in fn.node.body:
+        if isinstance(s, ast.Expr) and isinstance(s.value, ast.Constant):
+            continue
+        if isinstance(s, ast.If) and norm(s.test) == f"isinstance({x}, str)":
+            top += list(s.orelse)
+            continue
+        if isinstance(s, ast.If) and norm(s.test) == f"not isinstance({x}, str)":
+            # the inverted layout: the vector form is the guarded block, the group-aware closure follows it
+            top += list(s.body)
+            from .canon import _always_returns
+            if _always_returns(s.body):
+                break
+            continue
+        if isinstance(s, ast.If) and "isinstance(x, str)" in norm(s.test):
+            continue
+        top.append(s)
     na_line = None
     for s in top:
         for n in ast.walk(s):
